@@ -208,6 +208,91 @@ DISTANCES = [0.01, 0.03, 1e-4]
 TOL_PROJ = 1e-6      # on integers D^2 L Phi L^T (observed residual ~1e-12; a wrong block is off by >= 1)
 
 
+def project_disp(u, lat, dists):
+    """Cartesian displacement of one atom -> (integer direction in the supercell basis, distance id or 0)."""
+    v = np.asarray(u, dtype=float) @ np.linalg.inv(lat)
+    w = v / np.abs(v).max()
+    n = None
+    for m in (1, 2, 3, 4):
+        if np.abs(w * m - np.rint(w * m)).max() < 1e-7:
+            n = [int(x) for x in np.rint(w * m)]
+            break
+    if n is None:
+        n = [0, 0, 0]
+    length = float(np.linalg.norm(u))
+    did = 0
+    for k, d in enumerate(dists):
+        if abs(length - d) <= 1e-9 * d:
+            did = k + 1
+    return n, did
+
+
+def project_dataset(ph, idx, dists):
+    lat = ph.supercell.cell
+    return [[idx[int(d["number"])] + 1] + list(project_disp(d["displacement"], lat, dists)) for d in ph.dataset["first_atoms"]]
+
+
+def project_cells(ph, cells, idx, dists):
+    """handed-out displaced supercells -> ([[atom, direction, distance id]], clean, displacement arrays)."""
+    sc = ph.supercell
+    out, us = [], []
+    clean = True
+    for c in cells:
+        ok = (len(c) == len(sc) and list(c.symbols) == list(sc.symbols) and np.array_equal(c.cell, sc.cell)
+              and np.allclose(c.masses, sc.masses))
+        if not ok:
+            clean = False
+            out.append([0, [0, 0, 0], 0])
+            us.append(np.zeros((len(sc), 3)))
+            continue
+        u = c.positions - sc.positions
+        # (PhonopyAtoms stores scaled positions: the round trip leaves ~1e-16 on every atom)
+        moved = [i for i in range(len(sc)) if np.abs(u[i]).max() > 1e-9]
+        if len(moved) != 1:
+            clean = False
+            out.append([0, [0, 0, 0], 0])
+        else:
+            out.append([idx[moved[0]] + 1] + list(project_disp(u[moved[0]], sc.cell, dists)))
+        us.append(u)
+    return out, clean, us
+
+
+HIST_DISTS = [0.01, 0.03, 1e-4, 0.02]
+
+
+def run_history(ph, idx, variant, final_opts, cap_calls):
+    """A call history on one object ending in generate_displacements(final options) and a read of
+    supercells_with_displacements.  Returns (steps for DispHistoryTrace, displacement arrays of the last read)."""
+    dist, pm, diag, trig = final_opts
+    other = HIST_DISTS[(HIST_DISTS.index(dist) + 1) % len(HIST_DISTS)] if dist in HIST_DISTS else 0.02
+    steps = []
+
+    def gen(d, p, dg, tr):
+        ph.generate_displacements(distance=d, is_plusminus=PM_ARG[p], is_diagonal=dg, is_trigonal=tr)
+        steps.append(dict(op="gen", ds=project_dataset(ph, idx, HIST_DISTS), cells=[], clean=True))
+
+    def read():
+        cells = ph.supercells_with_displacements
+        pc, clean, us = project_cells(ph, cells, idx, HIST_DISTS)
+        steps.append(dict(op="read", ds=project_dataset(ph, idx, HIST_DISTS), cells=pc, clean=bool(clean)))
+        return us
+
+    if variant == 0:        # another distance first
+        gen(other, pm, diag, trig); read(); gen(dist, pm, diag, trig)
+    elif variant == 1:      # is_diagonal flipped and another distance first
+        gen(other, pm, not diag, trig); read(); gen(dist, pm, diag, trig)
+    elif variant == 2:      # dataset re-assigned between reads, then regenerated
+        gen(other, pm, diag, trig); read()
+        ph.dataset = ph.dataset
+        steps.append(dict(op="set", ds=project_dataset(ph, idx, HIST_DISTS), cells=[], clean=True))
+        read(); gen(dist, pm, diag, trig); read()
+    else:                   # plus/minus mode changed (another number of displacements) first
+        gen(dist, "off" if pm != "off" else "on", diag, trig); read(); gen(other, pm, diag, trig); read()
+        gen(dist, pm, diag, trig)
+    us = read()
+    return steps, us
+
+
 class Capture:
     """Record the result of get_least_displacements as called by Phonopy.generate_displacements."""
 
@@ -259,8 +344,12 @@ def record_run(real, cell, S, prim, opts, ref_int, symprec=1e-5):
         info["primitive_matrix"] = None if ph.primitive_matrix is None else np.array(ph.primitive_matrix).tolist()
         idx = real.match_atoms(S, cell, ph.supercell)
         symm = ph.symmetry
+        cell_us = None
         with Capture() as cap:
-            ph.generate_displacements(distance=dist, is_plusminus=PM_ARG[pm], is_diagonal=diag, is_trigonal=trig)
+            if route.startswith("cells"):
+                info["history"], cell_us = run_history(ph, idx, int(route.split(":")[1]), (dist, pm, diag, trig), cap.calls)
+            else:
+                ph.generate_displacements(distance=dist, is_plusminus=PM_ARG[pm], is_diagonal=diag, is_trigonal=trig)
         rows = cap.calls[-1][1]
         reps = [int(a) for a in symm.get_independent_atoms()]
         run["nops"] = int(len(symm.symmetry_operations["rotations"]))
@@ -289,9 +378,15 @@ def record_run(real, cell, S, prim, opts, ref_int, symprec=1e-5):
             u = np.array(d["displacement"], dtype=float)
             forces.append(-np.einsum("a,jab->jb", u, fc_ref[d["number"]]))
         forces = np.array(forces)
+        if cell_us is not None:
+            # forces of the harmonic crystal for the displaced supercells the object HANDED OUT:
+            # u = positions(cell_k) - positions(supercell)
+            if len(cell_us) != len(fa):
+                raise RuntimeError("handed-out cells: %d for %d displacements" % (len(cell_us), len(fa)))
+            forces = np.array([-np.einsum("ia,ijab->jb", u, fc_ref) for u in cell_us])
         kw = dict(calculate_full_force_constants=(layout == "full"), show_drift=False, fc_calculator=fcc)
         with contextlib.redirect_stdout(io.StringIO()):
-            if route == "setter":
+            if route == "setter" or route.startswith("cells"):
                 ph.forces = forces
             elif route in ("dataset", "file"):
                 ds = dict(natom=int(ph.dataset["natom"]),
@@ -362,6 +457,7 @@ def gen_sessions(ctx, only=None):
     route_cycle = itertools.cycle(ROUTES)
     fcc_cycle = itertools.cycle(FCCALC + FCCALC[:1])
     all_devs = []
+    all_hists = []
     infos = {}
     for si, s in enumerate(sess):
         cell = cells[c01_ref.skey(s)]
@@ -381,10 +477,14 @@ def gen_sessions(ctx, only=None):
         # is_trigonal (a test-only option of the code) end to end
         combos += [(True, True, "auto", "full", True), (True, False, "on", "compact", True),
                    (True, True, "off", "compact", True), (False, True, "auto", "full", True)]
+        # call histories on one object (re-generation between reads of supercells_with_displacements)
+        nh = 2 if ctx.quick else 4
+        hist = [(True, bool((si + k) % 2), ["auto", "on", "off"][(si + k) % 3], ["full", "compact"][k % 2], False, "cells:%d" % ((si + k) % 4))
+                for k in range(nh)]
         ptr = None
-        for sym, diag, pm, layout, trig in combos:
+        for sym, diag, pm, layout, trig, *hr in combos + hist:
             dist = next(dist_cycle)
-            route = next(route_cycle)
+            route = hr[0] if hr else next(route_cycle)
             if route == "file":
                 dist = 0.03
             opts = (sym, diag, pm, layout, dist, trig, route, next(fcc_cycle))
@@ -408,6 +508,8 @@ def gen_sessions(ctx, only=None):
             runs.append(run)
             infos[(si, len(runs))] = info
             all_devs.extend(devs)
+            if "history" in info:
+                all_hists.append(info["history"])
             ctx.count((s["entry"], s["model"], json.dumps(s["S"]), s["pname"], s["mag"], s["symprec"]) + opts)
             ctx.traces += 1
         # the primitive translations the specification's session uses are those of the primitive matrix the code used
@@ -416,7 +518,7 @@ def gen_sessions(ctx, only=None):
         s["arrays"] = [a.tolist() for a in arrays]
         s["ref"] = 1
         s["natom"] = len(cell["atoms"])
-    return sess, infos, all_devs
+    return sess, infos, all_devs, all_hists
 
 
 def repo_disp_events(ctx):
@@ -588,11 +690,11 @@ def run(ctx):
 
     # ---- B + C: reference crystals, real sessions ------------------------------------------------------
     if rp and rp[0] == "session":
-        sess, infos, devs = gen_sessions(ctx, only=rp[1])
+        sess, infos, devs, hists = gen_sessions(ctx, only=rp[1])
     elif rp:
-        sess, infos, devs = [], {}, []
+        sess, infos, devs, hists = [], {}, [], []
     else:
-        sess, infos, devs = gen_sessions(ctx)
+        sess, infos, devs, hists = gen_sessions(ctx)
     ctx.extra["sessions"] = [dict(entry=s["entry"], model=s["model"], S=s["S"], primitive=s["pname"], natom=s["natom"],
                                   left_handed=s["left_handed"], mag=s["mag"], symprec=s["symprec"], perturb=s["perturb"],
                                   ptrans=s["ptrans"],
@@ -644,6 +746,41 @@ def run(ctx):
             # other directions: specification drift, not a violation of C01
             print("SPEC-DRIFT C01: %s (requirement intact): the step machine does not reproduce the recorded "
                   "directions" % sorted(drift))
+
+    # ---- D2: call histories -------------------------------------------------------------------------------
+    if hists:
+        seen_h, uh = set(), []
+        for hh in hists:
+            k = json.dumps(hh)
+            if k not in seen_h:
+                seen_h.add(k)
+                uh.append(hh)
+        dsets = []
+        for st in uh[0]:
+            if st["ds"] not in dsets:
+                dsets.append(st["ds"])
+        mc = ("---- MODULE MC_DispHistory ----\nEXTENDS DispHistory\nMCD == {%s}\n====\n" % ", ".join(to_tla(d) for d in dsets))
+        ctx.tlc("MC_DispHistory", cfg_text="INIT HInit\nNEXT HNext\nCONSTANTS\n DataSets <- MCD\n MaxLen = 7\nCHECK_DEADLOCK FALSE\n"
+                "INVARIANT InvHandedOut\nINVARIANT InvCache\n", extra_files={"MC_DispHistory.tla": mc}, workers=2, timeout=600)
+        mc = ("---- MODULE MC_DispHistoryTrace ----\nEXTENDS DispHistoryTrace\nMCH == {%s}\nMCN == {}\n====\n"
+              % ",\n".join(to_tla(x) for x in uh))
+        res = ctx.tlc("MC_DispHistoryTrace", cfg_text="INIT TInit\nNEXT TNext\nCONSTANTS\n DataSets <- MCN\n MaxLen = 0\n Histories <- MCH\n"
+                      "CHECK_DEADLOCK FALSE\nINVARIANT ImplHandedOut\nINVARIANT ImplReadKeepsDataset\nINVARIANT ConformsDataset\n"
+                      "INVARIANT ConformsHandedOut\n", extra_files={"MC_DispHistoryTrace.tla": mc}, requirement=False,
+                      workers=workers, extra_args=("-continue",), timeout=1200)
+        ctx.extra["histories_recorded"] = len(hists)
+        ctx.extra["histories_distinct"] = len(uh)
+        ctx.sample(dict(kind="call history", steps=[dict(op=x["op"], ds=x["ds"], cells=x["cells"]) for x in uh[0]]))
+        for nme, tr in res.violations:
+            st = tr[-1][1] if tr else {}
+            hh, ii = st.get("h"), st.get("i")
+            det = dict(invariant=nme, step=ii, history=hh)
+            if nme.startswith("Impl"):
+                ctx.violation("history:" + nme, "supercells_with_displacements hands out cells that are not the supercell plus "
+                              "the current dataset's displacements (%s)" % nme, det)
+            else:
+                ctx.extra.setdefault("SPEC-DRIFT", []).append(det)
+                print("SPEC-DRIFT C01: %s in a call history (requirement intact)" % nme)
 
     # ---- E: sessions --------------------------------------------------------------------------------------
     model_pms = '{"auto"}' if ctx.quick else '{"auto", "on", "off"}'
